@@ -9,6 +9,9 @@ TOOL_MODEL_PATTERNS = ("rust_dealloc", "free argument", "dead object", "dealloca
 
 
 def kani_cmd(harnesses, features=None, jobs=16, timeout_s=300, target="kani", extra=None):
+    if os.path.realpath(REPO) != "/repo":
+        import hashlib
+        target = target + "_" + hashlib.md5(REPO.encode()).hexdigest()[:8]
     cmd = ["cargo", "kani", "--target-dir", os.path.join(BUILD, target), "-Z", "stubbing",
            "-Z", "unstable-options", "--harness-timeout", "%ds" % timeout_s, "--output-format", "terse",
            "--exact"]
@@ -37,6 +40,8 @@ def harness_full_names():
             for m in re.finditer(r"^\s*harness!\(\s*(\w+)\s*,", txt, re.M):
                 out[m.group(1)] = "verif_kani::%s::%s" % (mod, m.group(1))
             # rows of the tag_harnesses! table: `rel_tag_rej_x, rel_tag_x, ...;`
+            for m in re.finditer(r"^\s*local_harness!\(\s*(\w+)\s*,", txt, re.M):
+                out[m.group(1)] = "verif_kani::%s::%s" % (mod, m.group(1))
             for m in re.finditer(r"^\s*(rel_tag_\w+),\s*h_t\w+,", txt, re.M):
                 out[m.group(1)] = "verif_kani::%s::%s" % (mod, m.group(1))
     return out
